@@ -10,8 +10,9 @@
   belongs to the line terminator, not to the line (LSP 3.17, "text documents").
 -/
 import HL.Model.Text
+import HL.Model.Ast
 namespace HL.RangeSpec
-open HL.Text
+open HL HL.Ast HL.Text
 
 /-- An LSP range with natural-number components (the wire values). -/
 structure NRange where
@@ -81,5 +82,88 @@ def symRel (a b : NRange) : Bool :=
   (leqPos b.sl b.sc a.sl a.sc && leqPos a.el a.ec b.el b.ec)
 
 def laminarSymbols (rs : List NRange) : Bool := allPairs symRel rs
+
+/-! ### Hypotheses about the syntax tree (to be discharged by the lexer / parser models)
+
+    `w` is the number of columns one char occupies: `one` for the lexer as pinned (columns count
+    runes), `u16w` once columns count UTF-16 units (repo_patches/fix-utf16-columns.diff). -/
+
+def one : Char → Nat := fun _ => 1
+
+/-- The column unit of the tree. -/
+def unitOf (utf16 : Bool) : Char → Nat := if utf16 then u16w else one
+
+/-- `p` is a position of the text: its line exists and its column is reached after a whole
+    number of chars of that line. -/
+def posSound (w : Char → Nat) (doc : Txt) (p : Pos) : Bool :=
+  decide (1 ≤ p.line) && decide (1 ≤ p.col) &&
+  match (docLines doc)[p.line - 1]? with
+  | none => false
+  | some ln => (charsOf w ln (p.col - 1)).isSome
+
+def posLe (a b : Pos) : Bool := a.line < b.line || (a.line == b.line && a.col ≤ b.col)
+
+def rngSound (w : Char → Nat) (doc : Txt) (r : Rng) : Bool :=
+  posSound w doc r.start && posSound w doc r.stop && posLe r.start r.stop
+
+/-- The range is on one line and the chars between its two columns are exactly `lex`. -/
+def lexSound (w : Char → Nat) (doc : Txt) (r : Rng) (lex : Txt) : Bool :=
+  decide (1 ≤ r.start.line) && r.start.line == r.stop.line && decide (1 ≤ r.start.col) && decide (1 ≤ r.stop.col) &&
+  match (docLines doc)[r.start.line - 1]? with
+  | none => false
+  | some ln =>
+    match charsOf w ln (r.start.col - 1), charsOf w ln (r.stop.col - 1) with
+    | some a, some b => decide (a ≤ b) && (ln.drop a).take (b - a) == lex
+    | _, _ => false
+
+/-- Every component survives the conversion to `uint32`. -/
+def rngSmall (r : Rng) : Bool :=
+  decide (r.start.line < 4294967296) && decide (r.start.col < 4294967296) &&
+  decide (r.stop.line < 4294967296) && decide (r.stop.col < 4294967296)
+
+/-- No rune outside the BMP precedes the column of `p` on its line. -/
+def bmpBefore (doc : Txt) (p : Pos) : Bool :=
+  match (docLines doc)[p.line - 1]? with
+  | none => true
+  | some ln => (ln.take (p.col - 1)).all fun c => decide (c.val.toNat < 0x10000)
+
+def amountRanges (a : Amount) : List Rng := [a.range, a.commodity.range]
+
+def postingRanges (p : Posting) : List Rng :=
+  [p.range, p.account.range] ++
+  (match p.amount with | some a => amountRanges a | none => []) ++
+  (match p.cost with | some c => c.range :: amountRanges c.amount | none => []) ++
+  (match p.assertion with | some b => b.range :: amountRanges b.amount | none => []) ++
+  p.tags.map (·.range)
+
+def txRanges (tx : Transaction) : List Rng :=
+  [tx.range, tx.date.range] ++
+  (match tx.date2 with | some d => [d.range] | none => []) ++
+  tx.tags.map (·.range) ++
+  tx.comments.flatMap (fun c => c.tags.map (·.range)) ++
+  tx.postings.flatMap postingRanges
+
+def directiveRanges : Directive → List Rng
+  | .account a tags _ _ r => [r, a.range] ++ tags.map (·.range)
+  | .commodity c _ _ _ r => [r, c.range]
+  | .price d c p r => [r, d.range, c.range] ++ amountRanges p
+  | .year _ r => [r]
+  | .defaultCommodity _ _ r => [r]
+
+/-- Every position range stored in the tree. -/
+def nodeRanges (j : Journal) : List Rng :=
+  j.transactions.flatMap txRanges ++ j.directives.flatMap directiveRanges ++ j.includes.map (·.range)
+
+/-- Every range of the tree that has an End is a range of the text, in columns of unit `w`.
+    (Ranges without End — the name ranges of account / commodity directives, the commodity of
+    an amount that has none — are left out; the guards of the theorems name them.) -/
+def TreePositionsSound (w : Char → Nat) (doc : Txt) (j : Journal) : Bool :=
+  (nodeRanges j).all fun r => r.stop == Pos.zero || rngSound w doc r
+
+/-- The guard under which a range of the tree converts to a well-formed LSP range: it has an
+    End, every component fits `uint32`, and — while columns count runes — no rune outside the
+    BMP precedes either end on its line. -/
+def convGuard (utf16 : Bool) (doc : Txt) (r : Rng) : Bool :=
+  r.stop != Pos.zero && rngSmall r && (utf16 || (bmpBefore doc r.start && bmpBefore doc r.stop))
 
 end HL.RangeSpec
